@@ -418,7 +418,9 @@ class ParserSim:
                 pool.append(gen.long_flat(rng))
             else:
                 q = rng.random()
-                if q < 0.4:
+                if q < 0.06:
+                    pool.append(gen.numberish(rng))
+                elif q < 0.4:
                     pool.append(gen.soup(rng, gcfg))
                 elif q < 0.9:
                     s = gen.valid_text(rng, gcfg) if rng.random() < 0.7 else rng.choice(gen.CORPUS)
